@@ -114,6 +114,7 @@ func main() {
 	genAddr(*repo, *out)
 	genAlias(*repo, *out)
 	genDriver(*repo, *out)
+	genSource(*repo, *out)
 }
 
 // ---------------------------------------------------------------------------------------------
